@@ -13,7 +13,7 @@
 //!         inside the last bytes of a frame); the model re-checks every cut position
 //!   bulk  a few SETs / LPUSHes of 1-4 KB values, then a deep pipeline of GET / LRANGE / ECHO (/ MGET)
 //!         whose replies total more than 64, 128 or 256 KiB, fed in one read or in two or three large
-//!         reads: judged by the direct oracles O1 O2 O3 O5; one in four of the 64 KiB cases without
+//!         reads: judged by the direct oracles O1 O2 O3 O5; one in two of the 64 KiB cases without
 //!         MGET is also printed for the model (the others would cost coqc seconds each to parse)
 //!
 //! Direct oracles on the implementation (no model involved)
@@ -482,7 +482,7 @@ fn main() {
             let target = *[64usize << 10, 128 << 10, 256 << 10].choose(&mut rng).unwrap();
             out.count(&format!("bulk:target_kib:{}", target >> 10));
             let (frames, mget) = gen_bulk(&env, &mut rng, target);
-            bulk_model = !mget && target == 64 << 10 && rng.gen_range(0..4) == 0;
+            bulk_model = !mget && target == 64 << 10 && rng.gen_range(0..2) == 0;
             Stream { frames, bad: None }
         } else {
             gen_stream(&env, &mut rng, kind == "all2", kind == "bad")
@@ -645,7 +645,12 @@ fn main() {
             }
             out.count("bulk:also_checked_by_the_model");
         }
-        let term = format!("(KSeg {} {} {} {} {})", cfg_term(cfg), clist(chunks.iter(), |c| chex(c)), clist(term_cum.iter(), |c| c.to_string()), chex(&term_out), cbool(term_dead));
+        let pieces = |b: &Vec<u8>| clist(b.chunks(2000), |p| chex(p));
+        let term = if kind == "bulk" {
+            format!("(KSegL {} {} {} {} {})", cfg_term(cfg), clist(chunks.iter(), |c| pieces(c)), clist(term_cum.iter(), |c| c.to_string()), pieces(&term_out), cbool(term_dead))
+        } else {
+            format!("(KSeg {} {} {} {} {})", cfg_term(cfg), clist(chunks.iter(), |c| chex(c)), clist(term_cum.iter(), |c| c.to_string()), chex(&term_out), cbool(term_dead))
+        };
         let nontrivial = (st.frames.len() >= 2 || st.bad.is_some()) && !term_out.is_empty();
         out.case(i, term, nontrivial, &format!("{:?}{}{}{}", cfg, shards, chunks.iter().map(|c| hex(c)).collect::<Vec<_>>().join("|"), hex(&term_out)));
         if kind != "bulk" { out.sample(json!({"config": [cfg.0, cfg.1], "shards": shards, "reads": chunks.iter().map(|c| String::from_utf8_lossy(c).to_string()).collect::<Vec<_>>(), "output": String::from_utf8_lossy(&term_out), "kind": kind})); }
